@@ -260,6 +260,10 @@ func (w *World) checkContentM(r *Resp, what, path string, data []byte, wantDiges
 	rv := judgeRange(rangeHdr, int64(len(data)))
 	bad := func(oracle, sig, msg string) {
 		w.x.viol(props, oracle, what+" "+sig+note, fmt.Sprintf("%s %s: %s%s", r.method, path, msg, note))
+		if note != "" && oracle == "readback.lost" {
+			w.x.resync()
+			w.resyncAll()
+		}
 	}
 	switch rv.kind {
 	case "full":
@@ -304,7 +308,7 @@ func (w *World) checkContentM(r *Resp, what, path string, data []byte, wantDiges
 			bad("readback.headers", "Docker-Content-Digest", fmt.Sprintf("Docker-Content-Digest %q, want %s", d, wantDigest))
 		}
 	}
-	if wantMT != "" {
+	if wantMT != "" && !wantMTs[""] {
 		if ct := normCT(r.H.Get("Content-Type")); !wantMTs[ct] {
 			bad("readback.headers", "Content-Type", fmt.Sprintf("Content-Type %q, pushed as %q", ct, wantMT))
 		}
@@ -343,7 +347,11 @@ func (w *World) opGet(op Op) *Resp {
 		b, ok := mr.blobs[d]
 		switch {
 		case ok && !b.maybeGone:
-			w.checkContent(r, "blob", path, b.data, d, "", op.Range, op.Head, []string{"C02"})
+			note := ""
+			if why := mr.causeOf(d); why != "" {
+				note = " [" + why + "]"
+			}
+			w.checkContentM(r, "blob", path, b.data, d, map[string]bool{"": true}, op.Range, op.Head, []string{"C02"}, note)
 			w.x.out.probe("blob-read")
 		case ok && b.maybeGone:
 			if r.Code == 404 {
@@ -392,7 +400,7 @@ func (w *World) opGet(op Op) *Resp {
 			hdr.Add("Accept", a)
 		}
 		note := ""
-		if why := mr.orphans[d]; why != "" {
+		if why := mr.causeOf(d); why != "" {
 			note = " [" + why + "]"
 		}
 		path := "/v2/" + repo + "/manifests/" + ref
@@ -562,10 +570,16 @@ func (w *World) opDelete(op Op) *Resp {
 					return r
 				}
 				note := ""
-				if why := mr.orphans[d]; why != "" {
+				if why := mr.causeOf(d); why != "" {
 					note = " [" + why + "]"
 				}
 				w.x.viol([]string{"C03"}, "delete.status", "manifest present -> "+strconv.Itoa(r.Code)+note, fmt.Sprintf("DELETE of present manifest %s answered %d%s", d, r.Code, note))
+				if note != "" && r.Code == 404 {
+					mr.resyncOrphans()
+					w.deleteManifest(mr, d)
+					w.x.resync()
+					return r
+				}
 				w.x.stop = true
 				return r
 			}
@@ -934,6 +948,14 @@ func (w *World) opRefs(op Op) {
 				continue
 			}
 			how := w.pushHistory(repo, d)
+			if why := mr.causeOf(d); why != "" {
+				how += " [" + why + "]"
+			} else if why := mr.causeOf(subj); why != "" {
+				how += " [subject: " + why + "]"
+			}
+			if strings.Contains(how, "[") {
+				defer func() { mr.resyncOrphans(); w.x.resync() }()
+			}
 			w.x.viol([]string{"C07"}, "referrers.set", "missing referrer"+how, fmt.Sprintf("referrers of %s (filter %q) lack %s, a present manifest with that subject%s; listed: %v", subj, op.Filter, d, how, keysOf(got)))
 			continue
 		}
@@ -1023,4 +1045,10 @@ func (w *World) faulted(r *Resp, repo string) bool {
 		return true
 	}
 	return false
+}
+
+func (w *World) resyncAll() {
+	for _, mr := range w.m.repos {
+		mr.resyncOrphans()
+	}
 }
